@@ -203,7 +203,7 @@ def _boundaries(packets):
 
 
 def run_one(kind, stream, cuts, idle_steps, settings, cb, split_at=None, resume_at=None, bystander=False, cb_style="method", register_at=None, clock_jump=False,
-            loss=None):
+            loss=None, status_cb="ok", early_loss=False):
     """split_at: byte offset (a packet boundary) at which the gateway drops the link; the rest of the stream arrives
     on the connection the client opens next."""
     async def scenario(sim):
@@ -213,6 +213,19 @@ def run_one(kind, stream, cuts, idle_steps, settings, cb, split_at=None, resume_
             return
         conn = sim.conns[0]
         pos = 0
+        if early_loss:
+            # the first link is lost a moment after it came up - while the application's CONNECTED callback is still running -
+            # before the gateway has sent anything; the whole stream arrives on the connection the client opens next
+            await asyncio.sleep(0.1)
+            conn.reset(simgw.link_loss(kind))
+            for _ in range(6000):
+                if len(sim.conns) > 1 and sim.client.state.name == "CONNECTED":
+                    break
+                await asyncio.sleep(0.01)
+            await asyncio.sleep(0.5)
+            if len(sim.conns) < 2:
+                return
+            conn = sim.conns[-1]
         if register_at is not None:
             # the application registers its receive callback late: the client has been reading (and its decoder
             # reassembling, learning identities) for a while with nobody listening
@@ -233,7 +246,13 @@ def run_one(kind, stream, cuts, idle_steps, settings, cb, split_at=None, resume_
                     sim.clock_box["offset"] = 660.0      # eleven minutes pass before the link drops: the client is no longer young
                 # how the link goes: an orderly end of stream, or an error (by turns every class a lost link shows as). With an
                 # error the stream reader hands out nothing more, not even the partial line it holds
-                if kind == "waveshare" or loss == "error" or (loss is None and split_at % 3 == 0):
+                if loss == "send_failure":
+                    # the loss is noticed by the WRITE side: the flush of a send() of the application fails while the read side of
+                    # the link stays silent; the client reconnects because of that
+                    from .c13 import make_send_message
+                    conn.drain_fails = 0
+                    sim.spawn("send", make_send_message(kind))
+                elif kind == "waveshare" or loss == "error" or (loss is None and split_at % 3 == 0):
                     conn.reset(simgw.link_loss(kind))
                 else:
                     conn.feed_eof()
@@ -264,8 +283,8 @@ def run_one(kind, stream, cuts, idle_steps, settings, cb, split_at=None, resume_
             async def scenario_c(sim):
                 sim.clock_box = box
                 await scenario(sim)
-            return simgw.run_session(kind, scenario_c, client_kwargs=settings, recv_cb=cb, bystander=bystander, cb_style=cb_style)
-    return simgw.run_session(kind, scenario, client_kwargs=settings, recv_cb=cb, bystander=bystander, cb_style=cb_style)
+            return simgw.run_session(kind, scenario_c, client_kwargs=settings, recv_cb=cb, bystander=bystander, cb_style=cb_style, status_cb=status_cb)
+    return simgw.run_session(kind, scenario, client_kwargs=settings, recv_cb=cb, bystander=bystander, cb_style=cb_style, status_cb=status_cb)
 
 
 def run_shard(spec, acc):
@@ -352,6 +371,14 @@ def run_shard(spec, acc):
             judge(sim, stats, want, acc, kind, label, cuts, settings, cb, stream, undel, inside)
             if by and sim is not None and not stats["error"]:
                 simgw.judge_bystander(sim, acc, {"client": kind, "segmentation": label, "settings": repr(settings), "callback": cb})
+        if not settings.get("build_network_map"):
+            # the first link is lost while the application's status callback for CONNECTED is still running (it suspends for a
+            # while), nothing sent yet; everything arrives on the next connection
+            for scb_ in ("slow_connected", "slow", "ok"):
+                cuts = sorted(rng.sample(range(1, len(stream)), min(10, len(stream) - 1)))
+                sim, stats = run_one(kind, stream, cuts, 1, settings, cb, status_cb=scb_, early_loss=True)
+                acc.count("sessions_with_the_first_link_lost_during_the_connected_callback")
+                judge(sim, stats, want, acc, kind, f"first_link_lost_during_the_CONNECTED_callback[{scb_}]", cuts, settings, cb, stream, undel, True)
         if True:
             # the link drops at a packet boundary in the middle of the stream (possibly inside a fast-packet message);
             # the rest arrives on the next connection: same decoder, same expected deliveries
@@ -406,6 +433,8 @@ def run_shard(spec, acc):
                     pk2 = list(packets)
                     idx = next(i for i, e in enumerate(_boundaries(packets)) if e == p_end)
                     loss_ = "error" if (kind == "waveshare" or mid % 2) else "eof"
+                    if kind != "actisense" and mid % 3 == 0:
+                        loss_ = "send_failure"
                     if kind in ("yd", "actisense") and loss_ == "eof":
                         pk2[idx] = stream[p_start:mid]
                     else:
@@ -447,7 +476,8 @@ def judge(sim, stats, want, acc, kind, label, cuts, settings, cb, stream, undel,
         # (the serial client's first write on every connection is its configuration packet)
         written = b"".join(d for c_ in sim.conns for _, d in (c_.written[1:] if kind == "waveshare" else c_.written))
         acc.count("replies_from_inside_the_callback_checked", sim.replies_sent)
-        if written != one * sim.replies_sent:
+        extra_ = sum(1 for e_ in sim.trace if e_["k"] == "drain_failed")          # the harness' own send whose flush was made to fail
+        if written != one * (sim.replies_sent + extra_):
             acc.violation("replies-from-callback-not-on-the-wire", f"{kind}: {sim.replies_sent} replies sent from inside the receive callback, {len(written)} bytes on the wire "
                           f"instead of {len(one) * sim.replies_sent}", w)
     if got == want:
